@@ -51,12 +51,14 @@ def definite_assignment(ck, rule, mod, quals, why='', exempt=()):
                 defs = [d for d in fi.cfg.nodes if d not in (ENTRY, EXIT) and not isinstance(d, Assume) and nm.id in stmt_defs(d)]
                 # infeasible branch heads: the false arm of a domain tautology (mpi.size() >= 1)
                 infeasible = [a for a in fi.cfg.nodes if isinstance(a, Assume) and _tautology(a.test) is (not a.polarity)]
-                path = fi.cfg.path(ENTRY, s, avoiding=defs + infeasible)
+                # the reading statement may itself define the name (x = f(x)): it is the END of the path, not a node to avoid
+                path = fi.cfg.path(ENTRY, s, avoiding=[d for d in defs if d is not s] + infeasible)
                 if path is None:
                     ck.ok(rule, mod, s, 'read of %s' % nm.id, 'unbound only on a path through the false arm of a domain tautology (mpi.size() >= 1)')
                     continue
                 g = _guard_of_use(mod, nm, s)
-                if g is not None and defs and all(_defined_under(mod, d, g, fn) for d in defs if not _dominated_by_def(fi, d, defs)):
+                odefs = [d for d in defs if d is not s]
+                if g is not None and odefs and all(_defined_under(mod, d, g, fn) for d in odefs if not _dominated_by_def(fi, d, odefs)):
                     ck.ok(rule, mod, s, 'read of %s' % nm.id,
                           'read in the arm of a conditional expression guarded by `%s`; every definition sits under an if with the same rank-stable test' % u(g[0]))
                     continue
